@@ -1413,6 +1413,12 @@ def install_layout(reg):
     reg.method_models[("OutFile", "write")] = m_outfile_write
     reg.ext_models[("with", "OutFile")] = with_outfile
     reg.ext_models["os.makedirs"] = os_raising("os.makedirs")
+    # os.path primitives of _safe_join: uninterpreted (the C09 pack's ASSUMED models), POSIX constants
+    from contracts import C09 as _c09
+    for _k, _m in (("os.path.splitdrive", _c09.m_splitdrive), ("os.path.isabs", _c09.m_isabs), ("os.path.abspath", _c09.m_abspath)):
+        reg.ext_models.setdefault(_k, _m)
+    for _k, _v in (("os.sep", "/"), ("os.path.sep", "/"), ("os.pardir", ".."), ("os.path.pardir", ".."), ("os.curdir", "."), ("os.path.curdir", ".")):
+        reg.ext_models.setdefault(("const", _k), VStr(_v))
     reg.ext_models["os.path.dirname"] = lambda ex, st, args, kwargs, node: [(st, VStr(DIRNAME(args[0].t)))]
     reg.attr_models[("Folder", "coders")] = lambda ex, st, o: VSeq(
         NCOD(o.t), lambda i: VTuple([VExt("CoderId", CID(o.t, i)), VExt("CoderProps", CPROP(o.t, i))]), "coder")
@@ -1658,7 +1664,31 @@ def layout_contracts(lay_reg=None):
         note="decodes archive[pack_pos : pack_pos + sum(pack_sizes)] through the folder's coder chain, last coder first "
              "(empty / all-zero size list: everything from pack_pos to the end of the file -- the header case)"))
 
-    # ---- _safe_join / _mkdirs (C09 proves _safe_join's confinement; here only their exception surface matters)
+    # ---- _safe_join / _mkdirs (C09 proves _safe_join's confinement; here: WHEN it may refuse a member name -- a refusal aborts
+    # the extraction of the whole archive, so a name may be refused only for being unsafe, never for what it merely contains)
+    from contracts import C09 as _c09
+
+    def sj_unsafe(c):
+        """an UNSAFE member name (POSIX, in terms of the os.path primitives, which stay uninterpreted): empty names are never
+        refused; a drive, an absolute name, a name whose normal form climbs ('..' or '../...'), or a name whose absolute
+        join with the base is neither the base nor below it"""
+        base, rel = c.args["base_dir"].t, c.args["relative_path"].t
+        tail = _c09.TAIL(rel)
+        sv = z3.StringVal
+        nf = NORMPATH(tail)
+        b = _c09.ABS(base)
+        joined = z3.If(z3.PrefixOf(sv("/"), tail), tail, z3.If(z3.Or(z3.Length(b) == 0, z3.SuffixOf(sv("/"), b)), z3.Concat(b, tail), z3.Concat(b, sv("/"), tail)))
+        t = _c09.ABS(joined)
+        return z3.And(z3.Length(rel) > 0,
+                      z3.Or(z3.Length(_c09.DRIVE(rel)) > 0, _c09.ISABS(rel), z3.PrefixOf(sv("/"), rel), z3.PrefixOf(sv("\\"), rel),
+                            nf == sv(".."), z3.PrefixOf(sv("../"), nf),
+                            z3.And(t != b, z3.Not(z3.PrefixOf(z3.Concat(b, sv("/")), t)))))
+
+    out.append(FnContract(
+        target=f"{SEVEN}::_safe_join", params=[("base_dir", p_str()), ("relative_path", p_str())],
+        raises=[Raises(BAD, label="unsafe member name", when=sj_unsafe)],
+        result_maker=lambda ex, st, ctx: VStr(z3.String(fresh_name("safe_path"))),
+        note="a member name is refused only when it is unsafe: drive / absolute / climbing normal form / joined path outside the base"))
     out.append(FnContract(
         target=f"{SEVEN}::_safe_join", assumed=True, params=[("base_dir", p_str()), ("relative_path", p_str())],
         returns=lambda c: VStr(SJ(c.args["base_dir"].t, c.args["relative_path"].t)),
